@@ -155,6 +155,8 @@ def main():
         if pid in {"C06","C07","C08","C11","C12","C20","C02"}:
             c["text"] = c["text"] + " No function assigns its hcl.Pos parameter, a component of it, or takes its address (E8.cursor-unchanged)."
         if pid in E15_PROPS:
+            c["text"] = c["text"] + " Two loops over one collection that each add a fragment per element to one accumulator are not both run on one path without re-initialising it (E15.double-accumulation); a search loop with a false fallback does not return a callee's (value, ok) pair unexamined (E15.search-forwards-miss)."
+        if pid in E15_PROPS:
             c["text"] = c["text"] + " A collecting loop that skips items through a seen-set keys the set by the collected item itself (E15.partial-key-dedup, one reviewed exception); the walkers of one syntax node kind agree on the produced type they check against the constraint (E15.conversion-source-siblings); a return forwarding a result of a self-recursive call forwards all of them (E14.result-position); adjacent ifs on two boolean fields of one object do not plainly assign different values to one variable (E16.flag-overwrite); the fallback decoders built by decoder.Any take expression, path context and type from the receiver (E13.any-fallbacks)."
         if pid in E15_PROPS:
             c["text"] = c["text"] + " A text (string/Builder/Buffer) appended to in a loop nested in an outer loop's body and read once per outer element is re-initialised per element or is a whole-result accumulator (E15.carried-accumulator); a collecting loop is not left by returning the partial collection on a per-element miss (E15.collect-all, returns); homogeneous containers (List/Set/Tuple/Map) hand their children the same constraint in every feature (E15.sibling-child-constraint)."
